@@ -47,9 +47,16 @@ for w in $(seq 0 $((W-1))); do worker $w & done
 wait
 cat $base/out.* | sort > $base/new.tsv
 if [ -n "$SEED_PAT" ] && [ -f /verif/seeded/RESULTS.tsv ]; then
-  cut -f1 $base/new.tsv > $base/new.ids
-  grep -v -F -w -f $base/new.ids /verif/seeded/RESULTS.tsv > $base/old.tsv
-  cat $base/old.tsv $base/new.tsv | sort > /verif/seeded/RESULTS.tsv
+  # (signatures may contain NUL and other bytes: merge binary-safely)
+  python3 - "$base/new.tsv" /verif/seeded/RESULTS.tsv <<'PY'
+import sys
+rows = {}
+for f in (sys.argv[2], sys.argv[1]):
+    for l in open(f, 'rb').read().split(b'\n'):
+        if l.strip():
+            rows[l.split(b'\t')[0]] = l
+open(sys.argv[2], 'wb').write(b'\n'.join(rows[k] for k in sorted(rows)) + b'\n')
+PY
 else
   cp $base/new.tsv /verif/seeded/RESULTS.tsv
 fi
